@@ -123,7 +123,11 @@ class Provenance:
         if isinstance(x, Sym):
             return "float" in x.tags or not x.tags
         if isinstance(x, Op):
-            return x.op.startswith("py_") or x.op in ("div",)
+            if x.op.startswith("py_") or x.op in ("div",):
+                return True
+            if x.op in BINARY or x.op in ("neg", "abs", "sqrt", "exp", "log", "square"):
+                # Python-level arithmetic of scalars (mu * dt, sigma ** 2 / 2): a float as soon as one operand is
+                return any(Provenance.is_float_scalar(y) for y in x.args if not isinstance(y, bool))
         return False
 
     @staticmethod
